@@ -290,11 +290,29 @@ func (s *IndexedState) add(ctx *Context, id string, x Map) (string, error) {
 	if err != nil {
 		return id, err
 	}
+
+	// If we are replacing a rule, its 'when' pattern (which can
+	// differ from the new one, if any) has to leave the rule index.
+	var replaced Map
+	if previous, have := s.IdToFact[id]; have {
+		if replaced, _ = ExtractRule(ctx, previous, false); replaced != nil {
+			if err = s.unindexRule(ctx, id, replaced); err != nil {
+				return "", err
+			}
+		}
+	}
+
 	if rule != nil {
 		// ToDo: Metric(ctx, "RuleUpdated", "location", s.Name, "ruleId", id)
 		Log(DEBUG, ctx, "IndexedState.add", "state", s.Name, "rule", rule, "ruleId", id)
 		if _, scheduled := rule["schedule"]; !scheduled {
 			if err = s.indexRule(ctx, id, rule); err != nil {
+				if replaced != nil {
+					// The previous rule stays, so it stays indexed.
+					if _, scheduled := replaced["schedule"]; !scheduled {
+						s.indexRule(ctx, id, replaced)
+					}
+				}
 				return "", err
 			}
 		}
